@@ -607,3 +607,4 @@ MANIFEST = {
             "parameters and torch/numpy FFT semantics.",
     "technique": "value-kind normal form of exponents (powers of i) + typestate for centring + kinded-axis analysis + sibling agreement",
 }
+MANIFEST["text"] += ' Also: frequency vectors are found by their fftfreq definition (extent and sampling of the same axis through casts/destructuring), each broadcast use lies on its own axis, each tilt component multiplies the frequencies of its own axis; the detector model centres with fftshift over the detector axes (the operator the projection inverts).'
